@@ -1148,6 +1148,7 @@ def check_trace(case, executed, trace):
     conn_up_d = None
     reconnect_expected = False
     unanswered = 0
+    logged_in = False          # the current connection is up and its login was announced (until it is closed or announced down)
     opt_now = bool(case["opt"]["reconnect"])        # the reconnect option in force (the application may change it: setReconnect)
     for i, (ev, obs) in enumerate(trace):
         if ev.startswith("setReconnect"):
@@ -1189,6 +1190,11 @@ def check_trace(case, executed, trace):
             unanswered = 0          # the answer to the latest ping clears the keep-alive's record (gotPong empties the queue)
         if ev == "pingTick":
             closed_now = any(o.startswith("closed") for o in obs)
+            if logged_in and "tickLive" not in obs:
+                # whatever the login's options (passive or not): an authenticated connection is kept alive
+                out.append(oracle("C16:no-keepalive-on-authenticated-connection", "history %s (options %s): the connection is up and logged in and a ping interval has elapsed, "
+                                  "but no keep-alive is running: no ping is ever written, so a dead connection is never noticed" % (executed[:i + 1], case["opt"])))
+                break
             if closed_now and unanswered == 0:
                 out.append(oracle("C16:ping-timeout-without-unanswered-ping", "history %s: the keep-alive closed the connection at this tick although no ping is unanswered (pings of a connection "
                                   "whose 'disconnected' announcement was delivered do not count: state of an earlier connection leaked)" % executed[:i + 1]))
@@ -1204,6 +1210,10 @@ def check_trace(case, executed, trace):
                 unanswered += 1          # a ping was due and issued — written, or dropped because the connection is not up: either way it is not answered yet
             if closed_now:
                 unanswered = 0      # the keep-alive stopped itself and forgot its pings (it asked for the disconnect)
+        if ev == "success" and "authed" in obs and up_open:
+            logged_in = True
+        if downs or any(o.startswith("closed") for o in obs) or "downAll" in obs:
+            logged_in = False
         if ev == "success" and obs.count("authed") != 1:
             out.append(oracle("C16:authed-not-once", "history %s: success announced authed %d time(s)" % (executed[:i + 1], obs.count("authed"))))
             break
